@@ -3,6 +3,7 @@
 package actor
 
 import (
+	"bytes"
 	"errors"
 	"fmt"
 	"math"
@@ -473,6 +474,8 @@ func TestVerif_codecrt(t *testing.T) {
 		}
 		zeroNorm := vfNorm(reflect.New(desc.MessageTypeOf()), 0)
 		typeViol := map[string]bool{}
+		var heldData, heldCopy []byte
+		var heldName string
 		n := perType / nsh
 		for k := 0; k < n; k++ {
 			x, okx := g.value(desc, 0)
@@ -553,6 +556,12 @@ func TestVerif_codecrt(t *testing.T) {
 				if ny := vfNorm(reflect.ValueOf(dm), 0); ny != nx {
 					bad("c12-value-changed", "envelope payload changed for %s: got %s", name, verifrt.Short(ny, 1500))
 				}
+				// history monitor: the bytes returned for the previous envelope must still be that envelope after later
+				// encodes (the sender hands them to the connection after other goroutines may have encoded more)
+				if heldData != nil && !bytes.Equal(heldData, heldCopy) {
+					bad("c12-encoded-bytes-mutated", "the bytes EncodeEnvelopWithRemoting returned for an earlier envelope (%s) were overwritten by a later encode: %d bytes, first difference at offset %d", heldName, len(heldData), vfFirstDiff(heldData, heldCopy))
+				}
+				heldData, heldCopy, heldName = data, append([]byte(nil), data...), name
 			}
 			if k < 1 && ti%7 == 0 {
 				R.Sample(map[string]any{"type": name, "value": verifrt.Short(nx, 400)})
@@ -562,6 +571,15 @@ func TestVerif_codecrt(t *testing.T) {
 	}
 	R.Obs("uncovered_types", int64(uncovered))
 	vfPrimitiveLayer(R, verifrt.NewRand(verifrt.CaseSeed("codecrt-prim", sh)), perType*4/nsh)
+}
+
+func vfFirstDiff(a, b []byte) int {
+	for i := 0; i < len(a) && i < len(b); i++ {
+		if a[i] != b[i] {
+			return i
+		}
+	}
+	return minInt(len(a), len(b))
 }
 
 // ---- primitive layer -------------------------------------------------------------------------------
@@ -583,12 +601,12 @@ type vfPrimA struct {
 }
 
 type vfPrimB struct {
-	A    vfPrimA
-	L    []vfPrimA
-	Arr  [2]vfPrimA
-	LL   [][]int32
-	Strs []string
-	AS   [3]string
+	A      vfPrimA
+	L      []vfPrimA
+	Arr    [2]vfPrimA
+	LL     [][]int32
+	Strs   []string
+	AS     [3]string
 	hidden int //nolint:unused // unexported fields are skipped by both sides
 }
 
